@@ -193,6 +193,52 @@ func (fr *Frame) localAt(l *Loop, name string) (ssa.Value, bool) {
 	return nil, false
 }
 
+// localAtBlock resolves a source-level local variable name to the SSA value it
+// has when block b is entered... more precisely: the latest definition recorded
+// by a DebugRef in b itself or in a block that dominates b.
+func (fr *Frame) localAtBlock(b *ssa.BasicBlock, name string) (ssa.Value, bool) {
+	for _, p := range fr.fn.Params {
+		if p.Name() == name {
+			return p, true
+		}
+	}
+	var best ssa.Value
+	var bestBlock *ssa.BasicBlock
+	bestIdx := -1
+	for _, blk := range fr.fn.Blocks {
+		if !blk.Dominates(b) {
+			continue
+		}
+		for i, ins := range blk.Instrs {
+			d, ok := ins.(*ssa.DebugRef)
+			if !ok || d.IsAddr {
+				continue
+			}
+			obj := d.Object()
+			if obj == nil || obj.Name() != name {
+				continue
+			}
+			if _, isVar := obj.(*types.Var); !isVar {
+				continue
+			}
+			if best == nil || bestBlock.Dominates(blk) && (bestBlock != blk || i > bestIdx) {
+				best, bestBlock, bestIdx = d.X, blk, i
+			}
+		}
+	}
+	if best != nil {
+		return best, true
+	}
+	for _, blk := range fr.fn.Blocks {
+		for _, ins := range blk.Instrs {
+			if a, ok := ins.(*ssa.Alloc); ok && a.Comment == name {
+				return a, true
+			}
+		}
+	}
+	return nil, false
+}
+
 // invArgs builds the argument list of a loop clause function. sub maps header
 // phis to the value to use for them (entry or back-edge operands).
 func (fr *Frame) invArgs(l *Loop, cl *Clause, st *State, sub func(*ssa.Phi) (Val, bool)) []Val {
